@@ -134,4 +134,119 @@ theorem zip_map_fst_snd {α β : Type} (l : List (α × β)) : (l.map (·.1)).zi
   | nil => rfl
   | cons a t ih => simp [ih]
 
+/-! ### Coherence of continuous objects (round 4) -/
+
+/-- A continuous object is **coherent** when it holds one value per step of its whole-day period and
+    its `_datetimes` slot is empty or holds exactly those steps. -/
+def Obj.Coherent (o : Obj) : Prop :=
+  o.cont = true → (o.vals.length = o.ap.len ∧ o.moys = o.ap.moys)
+
+instance (o : Obj) : Decidable o.Coherent := by unfold Obj.Coherent; infer_instance
+
+theorem mkCont_coherent {p : Pub} {imm : Bool} {ap : AP} {vals : List Rat} {n : Obj}
+    (h : mkCont p imm ap vals = .ok n) : n.Coherent := by
+  unfold mkCont at h
+  split at h
+  · cases h
+  · split at h
+    · cases h
+    · next hl =>
+      injection h with h
+      subst h
+      intro _
+      exact ⟨by simpa using hl, by simp [Obj.moys]⟩
+
+theorem mkDisc_coherent {p : Pub} {imm : Bool} {ap : AP} {vals : List Rat} {moys : List Nat} {v : Bool} {n : Obj}
+    (h : mkDisc p imm ap vals moys v = .ok n) : n.Coherent := by
+  unfold mkDisc at h
+  split at h
+  · cases h
+  · split at h
+    · cases h
+    · injection h with h
+      subst h
+      intro hc
+      cases hc
+
+theorem copyP_coherent {p : Pub} {imm : Bool} {n : Obj} (h : copyP p imm = .ok n) : n.Coherent := by
+  unfold copyP at h
+  split at h
+  · exact mkCont_coherent h
+  · exact mkDisc_coherent h
+
+theorem validateP_coherent {p : Pub} {n : Obj} (h : validateP p = .ok n) : n.Coherent := by
+  unfold validateP at h
+  split at h
+  · exact copyP_coherent h
+  · split at h
+    · cases h
+    · split at h
+      · cases h
+      · exact mkDisc_coherent h
+
+theorem cullP_coherent {p : Pub} {ts : Nat} {n : Obj} (h : cullP p ts = .ok n) : n.Coherent := by
+  unfold cullP at h
+  split at h
+  · cases h
+  · exact mkDisc_coherent h
+
+theorem holesP_coherent {p : Pub} {n : Obj} (h : holesP p = .ok n) : n.Coherent := by
+  unfold holesP at h
+  split at h
+  · exact copyP_coherent h
+  · split at h
+    · cases h
+    · exact mkCont_coherent h
+
+theorem interpP_coherent {p : Pub} {ts : Nat} {cum : Option (Option Bool)} {n : Obj}
+    (h : interpP p ts cum = .ok n) : n.Coherent := by
+  unfold interpP at h
+  split at h
+  · cases h
+  · split at h
+    · cases h
+    · split at h
+      · cases h
+      · split at h
+        · cases h
+        · exact mkCont_coherent h
+
+theorem toDiscP_coherent {p : Pub} {n : Obj} (h : toDiscP p = .ok n) : n.Coherent := by
+  unfold toDiscP at h
+  split at h
+  · cases h
+  · exact mkDisc_coherent h
+
+theorem setValuesP_len {p : Pub} {vs : Option (List Rat)} {w : List Rat} (h : setValuesP p vs = .ok w)
+    (hc : p.cont = true) : w.length = p.ap.len := by
+  unfold setValuesP at h
+  by_cases hi : p.imm = true
+  · simp [hi] at h
+  · cases vs with
+    | none => simp [hi] at h
+    | some vs =>
+      by_cases hl : vs.length = p.ap.len
+      · simp [hi, hc, hl] at h
+        subst h
+        exact hl
+      · simp [hi, hc, hl] at h
+
+theorem setItemP_len {p : Pub} {i : Int} {v : Rat} {w : List Rat} (h : setItemP p i v = .ok w) :
+    w.length = p.vals.length := by
+  unfold setItemP at h
+  by_cases hi : p.imm = true
+  · simp [hi] at h
+  · simp only [hi, Bool.false_eq_true, if_false] at h
+    split at h <;> split at h <;> first | (injection h with h; subst h; simp) | cases h
+
+theorem derive_coherent (o : Obj) (adopt : Bool) (r : Except OErr Obj) (ho : o.Coherent)
+    (hr : ∀ n, r = .ok n → n.Coherent) : (derive o adopt r).1.Coherent := by
+  unfold derive
+  cases r with
+  | error e => exact ho
+  | ok n =>
+    cases adopt
+    · exact ho
+    · exact hr n rfl
+
 end Resample
